@@ -162,6 +162,7 @@ def _mk_props(stname, full):
         pre: all(0 <= x < len(ITYPES) for x in kinds)
         post: R(_)
         """
+        _closure = (NP, k_ok)
         return body(bits, kinds, has_site)
 
     def body(bits, kinds, has_site):
